@@ -438,6 +438,13 @@ func (w *World) restart(loseStore bool) error {
 // before the first candidate file is handed to chunkinfo for eviction (verifhook point
 // localstore.gc.candidate). It reports whether the run got as far as the parking point.
 // fail is called (test becomes inconclusive) when the run does not move within 120 s.
+// LastParkedCollected / LastParkedErr: what the run of the last ParkedCollect returned (valid
+// once ParkedCollect has returned).
+var (
+	LastParkedCollected uint64
+	LastParkedErr       error
+)
+
 func ParkedCollect(n *mininode.Node, point string, during func(), fail func(string)) (parked bool) {
 	reached := make(chan struct{})
 	release := make(chan struct{})
@@ -463,7 +470,8 @@ func ParkedCollect(n *mininode.Node, point string, during func(), fail func(stri
 	done := make(chan struct{})
 	go func() {
 		defer close(done)
-		_, _, _ = n.Store.VerifCollectGarbage()
+		c, _, e := n.Store.VerifCollectGarbage()
+		LastParkedCollected, LastParkedErr = c, e
 	}()
 	select {
 	case <-reached:
